@@ -259,6 +259,9 @@ pub trait HasTree: Sized + scpi::Device + 'static {
     const TREE: Node<'static, Self>;
     /// the same commands, the common (`*`) ones kept in a shared optional branch below the root
     const TREE_NESTED: Node<'static, Self>;
+    /// the STATus subsystem assembled by hand from the documented per-register command types
+    /// (`StatOperEventCommand`, `StatQuesPTransitionCommand` ...) instead of `scpi_status!()`
+    const TREE_TYPED: Node<'static, Self>;
 }
 
 impl<Q: QueueBackend + 'static> HasTree for StdDev<Q> {
@@ -280,6 +283,64 @@ impl<Q: QueueBackend + 'static> HasTree for StdDev<Q> {
                 ieee488_wai!(),
                 Leaf { name: b"*TRG", default: false, handler: &scpi_contrib::ieee488::trg::TrgCommand },
                 scpi_status!(),
+                scpi_system!(),
+                Branch {
+                    name: b"TEST",
+                    default: false,
+                    sub: &[Leaf { name: b"FAIL", default: false, handler: &FailCommand }, Leaf { name: b"NOP", default: false, handler: &NopCommand }],
+                },
+            ],
+        }
+    };
+    const TREE_TYPED: Node<'static, Self> = {
+        use scpi_contrib::scpi1999::status::operation::{StatOperConditionCommand, StatOperEnableCommand, StatOperEventCommand, StatOperNTransitionCommand, StatOperPTransitionCommand};
+        use scpi_contrib::scpi1999::status::questionable::{StatQuesConditionCommand, StatQuesEnableCommand, StatQuesEventCommand, StatQuesNTransitionCommand, StatQuesPTransitionCommand};
+        use scpi_contrib::scpi1999::status::StatPresetCommand;
+        use scpi_contrib::{ieee488_cls, ieee488_ese, ieee488_esr, ieee488_idn, ieee488_opc, ieee488_rst, ieee488_sre, ieee488_stb, ieee488_tst, ieee488_wai, scpi_system};
+        Branch {
+            name: b"",
+            default: false,
+            sub: &[
+                ieee488_cls!(),
+                ieee488_ese!(),
+                ieee488_esr!(),
+                ieee488_idn!(b"VERIF", b"HARNESS", b"0", b"1"),
+                ieee488_opc!(),
+                ieee488_rst!(),
+                ieee488_sre!(),
+                ieee488_stb!(),
+                ieee488_tst!(),
+                ieee488_wai!(),
+                Leaf { name: b"*TRG", default: false, handler: &scpi_contrib::ieee488::trg::TrgCommand },
+                Branch {
+                    name: b"STATus",
+                    default: false,
+                    sub: &[
+                        Branch {
+                            name: b"OPERation",
+                            default: false,
+                            sub: &[
+                                Leaf { name: b"EVENt", default: true, handler: &StatOperEventCommand::new() },
+                                Leaf { name: b"CONDition", default: false, handler: &StatOperConditionCommand::new() },
+                                Leaf { name: b"ENABle", default: false, handler: &StatOperEnableCommand::new() },
+                                Leaf { name: b"NTRansition", default: false, handler: &StatOperNTransitionCommand::new() },
+                                Leaf { name: b"PTRansition", default: false, handler: &StatOperPTransitionCommand::new() },
+                            ],
+                        },
+                        Branch {
+                            name: b"QUEStionable",
+                            default: false,
+                            sub: &[
+                                Leaf { name: b"EVENt", default: true, handler: &StatQuesEventCommand::new() },
+                                Leaf { name: b"CONDition", default: false, handler: &StatQuesConditionCommand::new() },
+                                Leaf { name: b"ENABle", default: false, handler: &StatQuesEnableCommand::new() },
+                                Leaf { name: b"NTRansition", default: false, handler: &StatQuesNTransitionCommand::new() },
+                                Leaf { name: b"PTRansition", default: false, handler: &StatQuesPTransitionCommand::new() },
+                            ],
+                        },
+                        Leaf { name: b"PRESet", default: false, handler: &StatPresetCommand },
+                    ],
+                },
                 scpi_system!(),
                 Branch {
                     name: b"TEST",
